@@ -8,6 +8,7 @@ import (
 	"path/filepath"
 
 	"github.com/cube2222/octosql/config"
+	"github.com/cube2222/octosql/plugins/verifcrash"
 )
 
 var octosqlFileExtensionHandlersFile = func() string {
@@ -19,10 +20,12 @@ func (*PluginManager) GetFileExtensionHandlers() (map[string]string, error) {
 }
 
 func registerFileExtensions(name string, extensions []string) error {
+	verifcrash.Point("extensions/before-load")
 	handlers, err := loadFileExtensionHandlers()
 	if err != nil {
 		return err
 	}
+	verifcrash.Point("extensions/after-load")
 	for _, ext := range extensions {
 		if oldName, ok := handlers[ext]; ok && oldName != name {
 			log.Printf("file extension handler for %s already registered, overwriting", ext)
@@ -52,8 +55,10 @@ func saveFileExtensionHandlers(handlers map[string]string) error {
 	if err != nil {
 		return fmt.Errorf("couldn't json-encode file extension handlers: %w", err)
 	}
+	verifcrash.TornWrite("extensions/write", octosqlFileExtensionHandlersFile, data)
 	if err := os.WriteFile(octosqlFileExtensionHandlersFile, data, 0644); err != nil {
 		return fmt.Errorf("couldn't write file extension handlers to file: %w", err)
 	}
+	verifcrash.Point("extensions/after-write")
 	return nil
 }
